@@ -5,6 +5,7 @@ import (
 	"fmt"
 	"math"
 	"math/big"
+	"strings"
 	"sort"
 	"testing"
 
@@ -255,9 +256,55 @@ func genNearEnd(t *rapid.T) Case {
 	return c
 }
 
+// genHair: exactly collinear segments with float ordinates (on a horizontal or vertical
+// line, or on y = x or y = -x, where collinearity survives any rounding of the
+// positions), one end point of the second a few units in the last place from an end
+// point of the first, or equal to it: overlaps, touches and gaps of a hair's width.
+func genHair(t *rapid.T) Case {
+	pos := func(l string) float64 {
+		v := rapid.Float64Range(-1, 1).Draw(t, l) * math.Ldexp(1, rapid.SampledFrom([]int{0, 0, 1, 10, 20, -3, -20}).Draw(t, l+"e"))
+		if rapid.IntRange(0, 3).Draw(t, l+"round") == 0 {
+			v = math.Round(v*100) / 100
+		}
+		return v
+	}
+	a, b := pos("a"), pos("b")
+	if a == b {
+		b = a + 1
+	}
+	cc := nudge([]float64{a, b}[rapid.IntRange(0, 1).Draw(t, "near")], rapid.IntRange(-3, 3).Draw(t, "ulps"))
+	d := pos("d")
+	if rapid.Bool().Draw(t, "dnear") {
+		d = nudge([]float64{a, b}[rapid.IntRange(0, 1).Draw(t, "dnearto")], rapid.IntRange(-3, 3).Draw(t, "dulps"))
+	}
+	if cc == d {
+		d = nudge(d, 7)
+	}
+	other := pos("other")
+	line := rapid.SampledFrom([]string{"h", "v", "d", "a"}).Draw(t, "line")
+	at := func(s float64) [2]model.F {
+		switch line {
+		case "h":
+			return [2]model.F{model.Of(s), model.Of(other)}
+		case "v":
+			return [2]model.F{model.Of(other), model.Of(s)}
+		case "d":
+			return [2]model.F{model.Of(s), model.Of(s)}
+		}
+		return [2]model.F{model.Of(s), model.Of(-s)}
+	}
+	c := Case{Class: "float:collinear-hair", P: [4][2]model.F{at(a), at(b), at(cc), at(d)}}
+	if rapid.Bool().Draw(t, "swapsegs") {
+		c.P = [4][2]model.F{c.P[2], c.P[3], c.P[1], c.P[0]}
+	}
+	return c
+}
+
 func genCase(t *rapid.T) Case {
 	var c Case
-	if k := rapid.IntRange(0, 8).Draw(t, "float"); k == 0 {
+	if k := rapid.IntRange(0, 9).Draw(t, "float"); k == 9 {
+		c = genHair(t)
+	} else if k == 0 {
 		c = genWide(t)
 	} else if k == 8 {
 		c = genNearEnd(t)
@@ -424,12 +471,25 @@ func propOne(c Case) error {
 				if !copied {
 					return fmt.Errorf("%s: intersection is the endpoint %v but %v was reported", what, co(c.P[atEndpoint]), pts[0])
 				}
-			} else if c.Integer {
+			} else if c.Integer || strings.HasPrefix(c.Class, "float:") {
 				bx, by := pointBound(P, x)
+				if !c.Integer {
+					// the bound is derived for exactly representable differences; float
+					// ordinates add the rounding of every subtraction: four times the bound
+					// (largest error seen for a computed point: 0.28 of the plain bound)
+					eight := big.NewRat(4, 1)
+					bx, by = exact.Mul(bx, eight), exact.Mul(by, eight)
+				}
 				got := exact.Pt(pts[0][0], pts[0][1])
 				dx, dy := absR(exact.Sub(got.X, x.X)), absR(exact.Sub(got.Y, x.Y))
 				ok := dx.Cmp(bx) <= 0 && dy.Cmp(by) <= 0
-				if bx.Sign() > 0 && by.Sign() > 0 {
+				computed := true // a point that was computed, not an end point handed back
+				for i := range c.P {
+					if bitsEq(pts[0], c.P[i]) {
+						computed = false
+					}
+				}
+				if ok && computed && bx.Sign() > 0 && by.Sign() > 0 {
 					ev.Default.MaxOf("point_err_over_bound", math.Max(exact.Float(exact.Quo(dx, bx)), exact.Float(exact.Quo(dy, by))))
 				}
 				if !ok {
